@@ -1,5 +1,6 @@
 (* C02 proofs: Proofs1 (sums over Q, elimination step, no-subtraction invariant), Proofs2 (reduction as a matrix
    sequence, back-substitution recurrence), Proofs3 (censoring induction), Proofs4 (gth over Q: final theorems),
    Proofs5 (rows of MarkovChain.stationary_distributions),
-   Proofs6 (irreducible => strictly positive; exact support of the rows). *)
-From QE Require Export C02.Proofs1 C02.Proofs2 C02.Proofs3 C02.Proofs4 C02.Proofs5 C02.Proofs6.
+   Proofs6 (irreducible => strictly positive; exact support of the rows),
+   Proofs7 (support of gth for reducible input = one recurrent class), Proofs8 (no-cancellation for every Num instance). *)
+From QE Require Export C02.Proofs1 C02.Proofs2 C02.Proofs3 C02.Proofs4 C02.Proofs5 C02.Proofs6 C02.Proofs7 C02.Proofs8.
